@@ -3,9 +3,12 @@
 Three case families (all randomness from ctx.rng(family, c); a case replays from [c, family]):
 
 build    raw matrix -> from_numpy (three concrete classes) -> C15.roundtrip, C15.roundtrip.stored, C15.stats*
-ops      raw universe with id-encoded taxa labels -> matrix -> history of 1..10 taxa-axis operations; after every
-         operation C15.ops (every retained taxon's raw row, found through its label), then the build-family monitors
-         on the resulting object
+ops      raw universe (80 taxa x up to 7 named traits) with id-encoded taxa labels and trait NAMES -> matrix -> history of
+         1..10 operations: taxa-axis operations INTERLEAVED with trait-axis operations (select/delete/insert/adjoin/concat/
+         append/incorp/remove/reorder/sort, axis-specific and axis-generic, copying and in place) and with persistence
+         round trips (HDF5 over an earlier larger write, pandas, CSV); after every operation C15.ops (every retained
+         (taxon, trait) cell, found through the taxa labels and trait names, carries its raw value), then the build-family
+         monitors on the resulting object; earlier shallow/deep copies are re-judged after every step
 generic  the generic DenseScaledMatrix (anchored mechanism): rescale / unscale / transform / untransform -> C15.generic
 
 The ground truth is always the raw matrix held by the harness (pbmon/oracle/bvscale.py).
@@ -28,8 +31,12 @@ CLAUSES = {
     "C15.ops": 10000,               # per executed taxa-axis operation
     "C15.generic": 10000,           # DenseScaledMatrix relations
 }
-OPS = ["select_taxa", "delete_taxa", "insert_taxa", "adjoin_taxa", "concat_taxa", "append_taxa", "incorp_taxa",
-       "remove_taxa", "reorder_taxa", "sort_taxa", "group_taxa"]
+OPS_TAXA = ["select_taxa", "delete_taxa", "insert_taxa", "adjoin_taxa", "concat_taxa", "append_taxa", "incorp_taxa",
+            "remove_taxa", "reorder_taxa", "sort_taxa", "group_taxa"]
+OPS_TRAIT = ["select_trait", "delete_trait", "insert_trait", "adjoin_trait", "concat_trait", "append_trait", "incorp_trait",
+             "remove_trait", "reorder_trait", "sort_trait"]
+OPS_IO = ["hdf5 round trip", "pandas round trip", "csv round trip"]
+OPS = OPS_TAXA + OPS_TRAIT + OPS_IO
 HOOKS_REQUIRED = ["op:" + o for o in OPS] + ["copy:shallow copy", "copy:deep copy", "recorder:from_numpy", "class:DenseBreedingValueMatrix", "class:DenseEstimatedBreedingValueMatrix",
                                               "class:DenseGenomicEstimatedBreedingValueMatrix"]
 RULE = ("seeded class-based raw matrices: 1-40 taxa (10%: up to 200), 1-4 traits, every trait column drawn from a named class "
@@ -42,7 +49,12 @@ RULE = ("seeded class-based raw matrices: 1-40 taxa (10%: up to 200), 1-4 traits
         "int64 rows; initial matrix and donors mostly of a single type, handed over in that type); 40% of the histories keep up to "
         "two earlier shallow (copy.copy / .copy()) or deep copies of the live matrix, continue on either the copy or the "
         "original, and re-judge every kept object (round trip and summaries against its own raw values) after every later "
-        "step; the taxa universe of a history has 80 rows, so that the "
+        "step; trait-axis operations (about 25% of the steps; trait names deliberately not in lexical order, unique, 1-7 traits, "
+        "donor traits standardised on their own, given as matrices or raw arrays, sort with default and explicit keys, "
+        "sort() with default axis) are interleaved and raw values are tracked per (taxon, trait name); 25% of the histories "
+        "contain persistence round trips of the live matrix (to_hdf5/from_hdf5 by file name or caller-owned handle, root or "
+        "named group, the first write preceded by a larger matrix - more taxa or more traits - at the same location; "
+        "to_pandas/from_pandas; to_csv/from_csv) after which the history continues on the object read back; the taxa universe of a history has 80 rows, so that the "
         "subsets met along a history differ in location, scale, constancy and NaN pattern.  A history stops at the first "
         "operation whose result no longer reproduces the raw values (later states descend from a corrupted object).  "
         "Non-trivial: more than one taxon or trait; distinct = digest of the raw inputs (and of the initial taxa and "
@@ -68,6 +80,11 @@ ASSUME = [
     "or int64 taxon must come back to float64 rounding error whatever it is combined with, a float32 taxon to float32 rounding "
     "error; summaries of a matrix holding float32 taxa are judged with tolerances widened by eps32/eps64; a loss that becomes "
     "visible only at a later step is attributed to the operation that first left float64/int64 taxa in a float32 matrix",
+    "trait-axis operations carry location and scale along with their traits and do not re-standardise; trait names are kept "
+    "unique (a table with duplicate column names is outside the domain of to_pandas/from_pandas)",
+    "persistence: pandas/CSV round trips go through the original scale (unscale=True) and are re-standardised by the reader; "
+    "CSV is read with float_precision='round_trip' because pandas' default parser is not exact to float64 rounding "
+    "(-0.0003102630688626493 reads back as -0.0003102630688626) - text precision of CSV stays with the persistence property C16",
     "tolerances: pbmon/oracle/bvscale.py (round trip 4*eps*(k+1)*(|raw|+2M) after k operations, summaries 1e-12*(k+1)*M, "
     "M = largest finite magnitude of the trait)",
 ]
@@ -427,13 +444,27 @@ def case_ops(ctx, c):
         ctx.hook("recorder:from_numpy", _FN[0] - fn0)
 
 
+TNAMES = ["Yq", "Yc", "Yx", "Ya", "Ym", "Yf", "Yz", "Yb"]   # trait names deliberately NOT in lexical order of their index
+TINDEX = {nm: i for i, nm in enumerate(TNAMES)}
+
+
+def tnames(tl):
+    return numpy.array([TNAMES[j] for j in tl], dtype=object)
+
+
+def tdecode(trait):
+    return [TINDEX[str(s)] for s in trait]
+
+
 def _case_ops(ctx, c):
+    import copy as _copy, os
     g = ctx.rng("ops", c)
     classes = bv_classes()
     cls = classes[int(g.integers(3))]
-    t = int(g.integers(1, 5))
+    t0 = int(g.integers(1, 5))
+    T = min(len(TNAMES), t0 + int(g.integers(0, 4)))     # trait universe: the traits a history can meet
     NU = 80
-    U, ccs = gen_matrix(g, NU, t)
+    U, ccs = gen_matrix(g, NU, T)
     # source array type of every taxon of the universe: 'd' float64 (documented), 'f' float32, 'i' int64 (both accepted by
     # from_numpy / adjoin / insert without complaint).  The ground truth of a taxon is the value its own source array holds.
     mixed = g.random() < 0.30
@@ -444,28 +475,36 @@ def _case_ops(ctx, c):
         U[fm] = U[fm].astype("float32").astype("float64")
         U[im] = numpy.round(numpy.clip(numpy.nan_to_num(U[im], nan=7.0), -1e12, 1e12))
     byclass = {k_: [int(i) for i in numpy.flatnonzero(src == k_)] for k_ in "dfi"}
-    sts_u, mags = col_stats(U)       # magnitudes over the universe bound every location that can occur
+    sts_u, mags_u = col_stats(U)       # magnitudes over the universe bound every location that can occur
     n0 = min(rand_n(g), 40)
     if mixed and g.random() < 0.6:   # initial matrix built from one source type (e.g. a float32 table)
         pool = byclass[str(g.choice([k_ for k_ in "dfi" if byclass[k_]]))]
         ids = [int(x) for x in g.choice(pool, min(n0, len(pool)), replace=False)]
     else:
         ids = [int(x) for x in g.choice(NU, n0, replace=False)]
+    tids = [int(x) for x in g.choice(T, t0, replace=False)]     # raw values are tracked per (taxon, trait NAME)
     nops = int(g.integers(1, 11))
     withcopies = g.random() < 0.40
+    withio = g.random() < 0.25
     coords = [c, "ops"]
-    ctx.case("ops:" + worst_class(ccs) + ("/mixed float64-float32-int64 sources" if mixed else ""), U, ids, nops, cls.__name__, withcopies)
+    ctx.case("ops:" + worst_class(ccs) + ("/mixed float64-float32-int64 sources" if mixed else ""), U, ids, tids, nops, cls.__name__,
+             withcopies, withio)
     ctx.hook("class:" + cls.__name__)
-    tr = traits(t)
 
-    def rawarr(idl):
+    def RAW(idl, tl):
+        return U[numpy.ix_(numpy.asarray(idl, dtype=int), numpy.asarray(tl, dtype=int))]
+
+    def MG(tl):
+        return [mags_u[j] for j in tl]
+
+    def rawarr(idl, tl):
         """The raw values of these taxa as the array a user would hold: single type when all come from one source type."""
         kinds = set(src[idl].tolist())
         if kinds == {"f"}:
-            ctx.sumnote("float32 arrays handed to the library"); return U[idl].astype("float32")
+            ctx.sumnote("float32 arrays handed to the library"); return RAW(idl, tl).astype("float32")
         if kinds == {"i"}:
-            ctx.sumnote("int64 arrays handed to the library"); return U[idl].astype("int64")
-        return U[idl].copy()
+            ctx.sumnote("int64 arrays handed to the library"); return RAW(idl, tl).astype("int64")
+        return RAW(idl, tl).copy()
 
     def reps(idl):
         return numpy.where(src[idl] == "f", O.EPS32, O.EPS)[:, None]
@@ -479,8 +518,8 @@ def _case_ops(ctx, c):
             kinds |= {"f" if x == "f" else "d" for x in src[l].tolist()}
         return "" if kinds <= {"d"} else ("/float32 sources" if kinds == {"f"} else "/float32 and float64 sources")
 
-    def mk(idl):
-        return cls.from_numpy(rawarr(idl), trait=tr, **labels(idl))
+    def mk(idl, tl):
+        return cls.from_numpy(rawarr(idl, tl), trait=tnames(tl), **labels(idl))
 
     def donor(maxk=6):
         if g.random() < 0.08:
@@ -491,248 +530,413 @@ def _case_ops(ctx, c):
             return [int(x) for x in g.choice(pool, k)]
         return [int(x) for x in g.integers(0, NU, k)]
 
+    def tdonor(cur):
+        """Traits (by index) that the matrix does not hold yet: trait names stay unique."""
+        free = [j for j in range(T) if j not in cur]
+        if not free:
+            return None
+        k = int(g.integers(1, min(2, len(free)) + 1))
+        return [int(x) for x in g.choice(free, k, replace=False)]
+
     site0 = site_of(cls, "from_numpy")
-    ok, b = guarded_call(ctx, "C15.roundtrip", site0, "any", coords, lambda: mk(ids), witness={"raw": U[ids]})
+    ok, b = guarded_call(ctx, "C15.roundtrip", site0, "any", coords, lambda: mk(ids, tids), witness={"raw": RAW(ids, tids)})
     if not ok:
         return
     hist = []
     tag = ""
-    ids0 = list(ids)
+    ids0 = list(ids); tids0 = list(tids)
 
-    def sound(o, idl):
+    def sound(o, idl, tl):
         """A freshly built matrix (initial object, donor) must itself round-trip; if not, that is from_numpy's finding
         (reported once there) and the history stops instead of blaming every operation that consumes the object."""
-        R0 = U[idl]; s0, _ = col_stats(R0)
-        return check_roundtrip(ctx, o, R0, s0, mags, 0, site0, coords, roweps=reps(idl))
+        R0 = RAW(idl, tl); s0, _ = col_stats(R0)
+        return check_roundtrip(ctx, o, R0, s0, MG(tl), 0, site0, coords, roweps=reps(idl))
 
     demoted = [None]   # (site, input class) of the operation that first left float64/int64 taxa in a single-precision matrix
-    kept = []   # earlier copies of the live matrix: {"obj", "ids", "kind", "tag"}; an operation on one object must never change another
+    kept = []   # earlier copies of the live matrix: {"obj","ids","tids","kind","tag"}; an operation on one object must never change another
 
     def rejudge(site_, k_):
         for e in list(kept):
-            Rk = U[e["ids"]]
+            Rk = RAW(e["ids"], e["tids"]); mgk = MG(e["tids"])
             try:
                 unk = numpy.asarray(e["obj"].unscale(), dtype=float)
-                mk_, vk_, _, fk = O.compare_matrix(unk, Rk, mags, k_, reps(e["ids"]))
+                mk_, vk_, _, fk = O.compare_matrix(unk, Rk, mgk, k_, reps(e["ids"]))
             except Exception:
                 mk_ = vk_ = False; fk = None; unk = None
             okk = ctx.check("C15.ops", mk_ and vk_, site_, "operation leaves other matrices (earlier copies) unchanged", "earlier " + e["kind"],
                             what=None if (mk_ and vk_) else "C15.ops: after %s on one matrix an %s of it no longer reproduces the raw values "
                             "of its own taxa" % (site_, "earlier " + e["kind"]),
-                            witness=None if (mk_ and vk_) else {"history": list(hist), "copy_taxa": e["ids"], "raw": Rk, "unscaled": unk,
-                                                                "first_bad": fk, "location": e["obj"].location, "scale": e["obj"].scale},
+                            witness=None if (mk_ and vk_) else {"history": list(hist), "copy_taxa": e["ids"], "copy_traits": tnames(e["tids"]),
+                                                                "raw": Rk, "unscaled": unk, "first_bad": fk,
+                                                                "location": e["obj"].location, "scale": e["obj"].scale},
                             coords=coords)
             if not okk:
                 kept[:] = [x for x in kept if x is not e]   # by identity (the matrices overload ==)
                 continue
             sk, _ = col_stats(Rk)
-            check_stats(ctx, e["obj"], Rk, sk, mags, k_, coords, e["tag"], prec_of(e["ids"]))
+            check_stats(ctx, e["obj"], Rk, sk, mgk, k_, coords, e["tag"], prec_of(e["ids"]))
 
-    if not sound(b, ids):
+    if not sound(b, ids, tids):
         return
     if c % 101 == 0:
-        ctx.sample({"family": "ops", "class": cls.__name__, "column_classes": ccs, "initial_taxa": ids, "nops": nops,
-                    "raw_initial": U[ids][:12].tolist()})
-    for step in range(nops):
-        n = len(ids)
-        k = step + 1
-        if withcopies and len(kept) < 2 and g.random() < 0.30:
-            import copy as _copy
-            kind = ["shallow copy", "shallow copy", "deep copy"][int(g.integers(3))]
-            how = int(g.integers(2))
-            meth = "__copy__" if kind == "shallow copy" else "__deepcopy__"
-            try:
-                if kind == "shallow copy":
-                    cp = _copy.copy(b) if how else b.copy()
+        ctx.sample({"family": "ops", "class": cls.__name__, "column_classes": ccs, "initial_taxa": ids, "initial_traits": tnames(tids).tolist(),
+                    "nops": nops, "raw_initial": RAW(ids, tids)[:12].tolist()})
+    h5path = os.path.join(os.environ.get("PBMON_SCRATCH_DIR") or "/tmp", "c15-%d-%d.h5" % (os.getpid(), c))
+    csvpath = h5path[:-3] + ".csv"
+    prewritten = [False]
+    try:
+        for step in range(nops):
+            n = len(ids); t = len(tids)
+            k = step + 1
+            if withcopies and len(kept) < 2 and g.random() < 0.30:
+                kind = ["shallow copy", "shallow copy", "deep copy"][int(g.integers(3))]
+                how = int(g.integers(2))
+                meth = "__copy__" if kind == "shallow copy" else "__deepcopy__"
+                try:
+                    if kind == "shallow copy":
+                        cp = _copy.copy(b) if how else b.copy()
+                    else:
+                        cp = _copy.deepcopy(b) if how else b.deepcopy()
+                except Exception as e:
+                    ctx.raised(meth, e); cp = None
+                if cp is not None:
+                    ctx.hook("copy:" + kind)
+                    hist.append("%s of the live matrix (%s)" % (kind, ["method", "copy module"][how]))
+                    kept.append({"obj": cp, "ids": list(ids), "tids": list(tids), "kind": kind, "tag": tag})
+                    rejudge(site_of(cls, meth), k)     # the copy itself carries the raw values of its taxa
+                    if kept and kept[-1]["obj"] is cp and g.random() < 0.5:
+                        kept[-1]["obj"], b = b, cp     # continue the history on the copy, keep the original
+            # ---- choose the operation: taxa axis (as before), trait axis (interleaved), persistence round trips
+            wt = {o: 3.0 for o in OPS_TAXA}
+            for o in ("reorder_taxa", "sort_taxa", "group_taxa"):
+                wt[o] = 1.0
+            if n <= 1:
+                wt["delete_taxa"] = wt["remove_taxa"] = 0.0
+            if n > 60:
+                for o in ("insert_taxa", "adjoin_taxa", "concat_taxa", "append_taxa", "incorp_taxa"):
+                    wt[o] = 0.2
+            for o in OPS_TRAIT:
+                wt[o] = 0.9
+            wt["sort_trait"] = wt["reorder_trait"] = 1.3
+            if t <= 1:
+                wt["delete_trait"] = wt["remove_trait"] = 0.0
+            if t >= T:
+                for o in ("insert_trait", "adjoin_trait", "concat_trait", "append_trait", "incorp_trait"):
+                    wt[o] = 0.0
+            for o in OPS_IO:
+                wt[o] = (2.2 if o.startswith("hdf5") else 0.9) if withio else 0.0
+            names_ = list(wt); pw = numpy.array([wt[o] for o in names_]); op = names_[int(g.choice(len(names_), p=pw / pw.sum()))]
+            trait_op = op in OPS_TRAIT
+            io_op = op in OPS_IO
+            generic = (not io_op) and g.random() < 0.25
+            ax = (int(g.choice([1, 1, -1])) if trait_op else int(g.choice([0, 0, -2])))
+            gname = op.rsplit("_", 1)[0]
+            inplace = gname in ("append", "incorp", "remove", "reorder", "sort", "group")
+            vform = "any"
+            exp = list(ids); expt = list(tids)
+            if op == "select_taxa":
+                u = g.random()
+                if u < 0.3:
+                    idx = sorted(int(x) for x in g.choice(n, int(g.integers(1, n + 1)), replace=False))
+                elif u < 0.5:
+                    idx = [int(x) for x in g.permutation(n)]
+                elif u < 0.8:
+                    idx = [int(x) for x in g.integers(0, n, int(g.integers(1, n + 4)))]
                 else:
-                    cp = _copy.deepcopy(b) if how else b.deepcopy()
-            except Exception as e:
-                ctx.raised(meth, e); cp = None
-            if cp is not None:
-                ctx.hook("copy:" + kind)
-                hist.append("%s of the live matrix (%s)" % (kind, ["method", "copy module"][how]))
-                kept.append({"obj": cp, "ids": list(ids), "kind": kind, "tag": tag})
-                rejudge(site_of(cls, meth), k)     # the copy itself carries the raw values of its taxa
-                if kept and kept[-1]["obj"] is cp and g.random() < 0.5:
-                    kept[-1]["obj"], b = b, cp     # continue the history on the copy, keep the original
-        weights = numpy.array([3, 3 if n > 1 else 0, 3, 3, 3, 3, 3, 3 if n > 1 else 0, 1, 1, 1], dtype=float)
-        if n > 60:
-            weights[[2, 3, 4, 5, 6]] = 0.2
-        op = OPS[int(g.choice(len(OPS), p=weights / weights.sum()))]
-        generic = g.random() < 0.25
-        gname = op[:-5]
-        inplace = op in ("append_taxa", "incorp_taxa", "remove_taxa", "reorder_taxa", "sort_taxa", "group_taxa")
-        vform = "any"
-        exp = None
-        if op == "select_taxa":
-            u = g.random()
-            if u < 0.3:
-                idx = sorted(int(x) for x in g.choice(n, int(g.integers(1, n + 1)), replace=False))
-            elif u < 0.5:
-                idx = [int(x) for x in g.permutation(n)]
-            elif u < 0.8:
-                idx = [int(x) for x in g.integers(0, n, int(g.integers(1, n + 4)))]
-            else:
-                idx = [int(x) - n for x in g.integers(0, n, int(g.integers(1, n + 1)))]
-            arg = idx if g.random() < 0.5 else numpy.array(idx, dtype="int64")
-            exp = [ids[i] for i in idx]; desc = "select_taxa(%s)" % idx
-            call = (lambda: b.select(arg, axis=0)) if generic else (lambda: b.select_taxa(arg))
-        elif op in ("delete_taxa", "remove_taxa"):
-            obj, keep_pos, txt = positions(g, n)
-            exp = [ids[p] for p in keep_pos]; desc = "%s(%s)" % (op, txt)
-            if op == "delete_taxa":
-                call = (lambda: b.delete(obj, axis=0)) if generic else (lambda: b.delete_taxa(obj))
-            else:
-                call = (lambda: b.remove(obj, axis=0)) if generic else (lambda: b.remove_taxa(obj))
-        elif op in ("insert_taxa", "incorp_taxa", "adjoin_taxa", "append_taxa"):
-            dl = donor()
-            dids = list(ids) if dl is None else dl
-            dobj = b if dl is None else mk(dids)
-            if dl is not None and not sound(dobj, dids):
-                return
-            raw_form = op in ("insert_taxa", "adjoin_taxa") and g.random() < 0.35
-            vform = "values given as raw ndarray" if raw_form else "values given as matrix"
-            kw = {}
-            vals = dobj
-            if raw_form:
-                vals = rawarr(dids); kw = labels(dids)
-            if op in ("insert_taxa", "incorp_taxa"):
-                if g.random() < 0.75:
-                    pos = int(g.integers(0, n + 1)); ptxt = str(pos)
+                    idx = [int(x) - n for x in g.integers(0, n, int(g.integers(1, n + 1)))]
+                arg = idx if g.random() < 0.5 else numpy.array(idx, dtype="int64")
+                exp = [ids[i] for i in idx]; desc = "select_taxa(%s)" % idx
+                call = (lambda: b.select(arg, axis=ax)) if generic else (lambda: b.select_taxa(arg))
+            elif op == "select_trait":
+                u = g.random()
+                if u < 0.5:
+                    idx = sorted(int(x) for x in g.choice(t, int(g.integers(1, t + 1)), replace=False))
+                elif u < 0.8:
+                    idx = [int(x) for x in g.permutation(t)]
                 else:
-                    pos = [int(x) for x in g.integers(0, n + 1, len(dids))]; ptxt = str(pos)
-                exp = [int(x) for x in numpy.insert(numpy.array(ids, dtype="int64"), pos, numpy.array(dids, dtype="int64"))]
-                desc = "%s(%s, %s taxa %s)" % (op, ptxt, "self" if dl is None else "donor", dids)
-                if op == "insert_taxa":
-                    call = (lambda: b.insert(pos, vals, axis=0, **kw)) if generic else (lambda: b.insert_taxa(pos, vals, **kw))
+                    idx = [int(x) - t for x in g.choice(t, int(g.integers(1, t + 1)), replace=False)]
+                arg = idx if g.random() < 0.5 else numpy.array(idx, dtype="int64")
+                expt = [tids[i] for i in idx]; desc = "select_trait(%s)" % idx
+                call = (lambda: b.select(arg, axis=ax)) if generic else (lambda: b.select_trait(arg))
+            elif op in ("delete_taxa", "remove_taxa"):
+                obj, keep_pos, txt = positions(g, n)
+                exp = [ids[p] for p in keep_pos]; desc = "%s(%s)" % (op, txt)
+                if op == "delete_taxa":
+                    call = (lambda: b.delete(obj, axis=ax)) if generic else (lambda: b.delete_taxa(obj))
                 else:
-                    call = (lambda: b.incorp(pos, vals, axis=0, **kw)) if generic else (lambda: b.incorp_taxa(pos, vals, **kw))
-            else:
-                exp = list(ids) + list(dids)
-                desc = "%s(%s taxa %s)" % (op, "self" if dl is None else "donor", dids)
-                if op == "adjoin_taxa":
-                    call = (lambda: b.adjoin(vals, axis=0, **kw)) if generic else (lambda: b.adjoin_taxa(vals, **kw))
+                    call = (lambda: b.remove(obj, axis=ax)) if generic else (lambda: b.remove_taxa(obj))
+            elif op in ("delete_trait", "remove_trait"):
+                obj, keep_pos, txt = positions(g, t)
+                expt = [tids[p] for p in keep_pos]; desc = "%s(%s)" % (op, txt)
+                if op == "delete_trait":
+                    call = (lambda: b.delete(obj, axis=ax)) if generic else (lambda: b.delete_trait(obj))
                 else:
-                    call = (lambda: b.append(vals, axis=0, **kw)) if generic else (lambda: b.append_taxa(vals, **kw))
-        elif op == "concat_taxa":
-            parts = [(list(ids), b)]
-            for _ in range(int(g.integers(0, 3))):
+                    call = (lambda: b.remove(obj, axis=ax)) if generic else (lambda: b.remove_trait(obj))
+            elif op in ("insert_taxa", "incorp_taxa", "adjoin_taxa", "append_taxa"):
                 dl = donor()
-                parts.append((list(ids), b) if dl is None else (dl, mk(dl)))
-                if dl is not None and not sound(parts[-1][1], dl):
+                dids = list(ids) if dl is None else dl
+                dobj = b if dl is None else mk(dids, tids)
+                if dl is not None and not sound(dobj, dids, tids):
                     return
-            order = [int(x) for x in g.permutation(len(parts))]
-            parts = [parts[i] for i in order]
-            mats = [p[1] for p in parts]
-            exp = [i for p in parts for i in p[0]]
-            desc = "concat_taxa(%s)" % [p[0] for p in parts]
-            call = (lambda: cls.concat(mats, axis=0)) if generic else (lambda: cls.concat_taxa(mats))
-        elif op == "reorder_taxa":
-            perm = numpy.array([int(x) for x in g.permutation(n)], dtype="int64")
-            exp = [ids[i] for i in perm]; desc = "reorder_taxa(%s)" % perm.tolist()
-            call = (lambda: b.reorder(perm, axis=0)) if generic else (lambda: b.reorder_taxa(perm))
-        elif op == "sort_taxa":
-            exp = list(ids); desc = "sort_taxa()"
-            call = (lambda: b.sort(axis=0)) if generic else (lambda: b.sort_taxa())
-        else:
-            exp = list(ids); desc = "group_taxa()"
-            call = (lambda: b.group(axis=0)) if generic else (lambda: b.group_taxa())
-        if generic:
-            desc = desc.replace(op, gname + "[axis=0]", 1)
-        vform += pcls(ids, exp)
-        hist.append(desc)
-        ctx.hook("op:" + op)
-        site = site_of(cls, op)
-        R_before = U[ids]
-        fn0 = _FN[0]
-        try:
-            res = call()
-        except Exception as e:
-            # state clause (DESIGN 2.1): a refusing operation is not a violation, a half-applied one is
-            ctx.raised(op + ("[generic]" if generic else ""), e)
+                raw_form = op in ("insert_taxa", "adjoin_taxa") and g.random() < 0.35
+                vform = "values given as raw ndarray" if raw_form else "values given as matrix"
+                kw = {}
+                vals = dobj
+                if raw_form:
+                    vals = rawarr(dids, tids); kw = labels(dids)
+                if op in ("insert_taxa", "incorp_taxa"):
+                    if g.random() < 0.75:
+                        pos = int(g.integers(0, n + 1)); ptxt = str(pos)
+                    else:
+                        pos = [int(x) for x in g.integers(0, n + 1, len(dids))]; ptxt = str(pos)
+                    exp = [int(x) for x in numpy.insert(numpy.array(ids, dtype="int64"), pos, numpy.array(dids, dtype="int64"))]
+                    desc = "%s(%s, %s taxa %s)" % (op, ptxt, "self" if dl is None else "donor", dids)
+                    if op == "insert_taxa":
+                        call = (lambda: b.insert(pos, vals, axis=ax, **kw)) if generic else (lambda: b.insert_taxa(pos, vals, **kw))
+                    else:
+                        call = (lambda: b.incorp(pos, vals, axis=ax, **kw)) if generic else (lambda: b.incorp_taxa(pos, vals, **kw))
+                else:
+                    exp = list(ids) + list(dids)
+                    desc = "%s(%s taxa %s)" % (op, "self" if dl is None else "donor", dids)
+                    if op == "adjoin_taxa":
+                        call = (lambda: b.adjoin(vals, axis=ax, **kw)) if generic else (lambda: b.adjoin_taxa(vals, **kw))
+                    else:
+                        call = (lambda: b.append(vals, axis=ax, **kw)) if generic else (lambda: b.append_taxa(vals, **kw))
+            elif op in ("insert_trait", "incorp_trait", "adjoin_trait", "append_trait"):
+                dt = tdonor(tids)
+                dobj = mk(ids, dt)          # new traits of the same taxa, standardised on their own
+                if not sound(dobj, ids, dt):
+                    return
+                raw_form = g.random() < 0.35
+                vform = "values given as raw ndarray" if raw_form else "values given as matrix"
+                kw = {}
+                vals = dobj
+                if raw_form:
+                    vals = rawarr(ids, dt); kw = {"trait": tnames(dt)}
+                if op in ("insert_trait", "incorp_trait"):
+                    if g.random() < 0.75:
+                        pos = int(g.integers(0, t + 1)); ptxt = str(pos)
+                    else:
+                        pos = [int(x) for x in g.integers(0, t + 1, len(dt))]; ptxt = str(pos)
+                    expt = [int(x) for x in numpy.insert(numpy.array(tids, dtype="int64"), pos, numpy.array(dt, dtype="int64"))]
+                    desc = "%s(%s, traits %s)" % (op, ptxt, tnames(dt).tolist())
+                    if op == "insert_trait":
+                        call = (lambda: b.insert(pos, vals, axis=ax, **kw)) if generic else (lambda: b.insert_trait(pos, vals, **kw))
+                    else:
+                        call = (lambda: b.incorp(pos, vals, axis=ax, **kw)) if generic else (lambda: b.incorp_trait(pos, vals, **kw))
+                else:
+                    expt = list(tids) + list(dt)
+                    desc = "%s(traits %s)" % (op, tnames(dt).tolist())
+                    if op == "adjoin_trait":
+                        call = (lambda: b.adjoin(vals, axis=ax, **kw)) if generic else (lambda: b.adjoin_trait(vals, **kw))
+                    else:
+                        call = (lambda: b.append(vals, axis=ax, **kw)) if generic else (lambda: b.append_trait(vals, **kw))
+            elif op == "concat_taxa":
+                parts = [(list(ids), b)]
+                for _ in range(int(g.integers(0, 3))):
+                    dl = donor()
+                    parts.append((list(ids), b) if dl is None else (dl, mk(dl, tids)))
+                    if dl is not None and not sound(parts[-1][1], dl, tids):
+                        return
+                order = [int(x) for x in g.permutation(len(parts))]
+                parts = [parts[i] for i in order]
+                mats = [p[1] for p in parts]
+                exp = [i for p in parts for i in p[0]]
+                desc = "concat_taxa(%s)" % [p[0] for p in parts]
+                call = (lambda: cls.concat(mats, axis=ax)) if generic else (lambda: cls.concat_taxa(mats))
+            elif op == "concat_trait":
+                parts = [(list(tids), b)]
+                cur = list(tids)
+                for _ in range(int(g.integers(1, 3))):
+                    dt = tdonor(cur)
+                    if dt is None:
+                        break
+                    cur += dt
+                    parts.append((dt, mk(ids, dt)))
+                    if not sound(parts[-1][1], ids, dt):
+                        return
+                order = [int(x) for x in g.permutation(len(parts))]
+                parts = [parts[i] for i in order]
+                mats = [p[1] for p in parts]
+                expt = [j for p in parts for j in p[0]]
+                desc = "concat_trait(%s)" % [tnames(p[0]).tolist() for p in parts]
+                call = (lambda: cls.concat(mats, axis=ax)) if generic else (lambda: cls.concat_trait(mats))
+            elif op == "reorder_taxa":
+                perm = numpy.array([int(x) for x in g.permutation(n)], dtype="int64")
+                exp = [ids[i] for i in perm]; desc = "reorder_taxa(%s)" % perm.tolist()
+                call = (lambda: b.reorder(perm, axis=ax)) if generic else (lambda: b.reorder_taxa(perm))
+            elif op == "reorder_trait":
+                perm = numpy.array([int(x) for x in g.permutation(t)], dtype="int64")
+                expt = [tids[i] for i in perm]; desc = "reorder_trait(%s)" % perm.tolist()
+                call = (lambda: b.reorder(perm, axis=ax)) if generic else (lambda: b.reorder_trait(perm))
+            elif op == "sort_taxa":
+                keys = None if g.random() < 0.7 else (g.integers(0, 3, n),)
+                desc = "sort_taxa(%s)" % ("default keys" if keys is None else "integer keys with ties")
+                call = (lambda: b.sort(keys, axis=ax)) if generic else (lambda: b.sort_taxa(keys))
+            elif op == "sort_trait":
+                keys = None if g.random() < 0.7 else (g.permutation(t),)
+                desc = "sort_trait(%s)" % ("default keys: trait names" if keys is None else "explicit integer keys")
+                if generic and keys is None and ax == -1 and g.random() < 0.5:
+                    call = lambda: b.sort()          # noqa: E731   the generic sort defaults to the last (trait) axis
+                    desc += " via sort() defaults"
+                else:
+                    call = (lambda: b.sort(keys, axis=ax)) if generic else (lambda: b.sort_trait(keys))
+            elif op == "group_taxa":
+                desc = "group_taxa()"
+                call = (lambda: b.group(axis=ax)) if generic else (lambda: b.group_taxa())
+            elif op == "hdf5 round trip":
+                grp = "bv" if g.random() < 0.7 else None
+                over = False
+                big = None
+                if not prewritten[0] and g.random() < 0.7:
+                    # the location already holds an earlier, larger matrix (more taxa or more traits of the same study)
+                    if g.random() < 0.5 and tdonor(tids) is not None:
+                        big = mk(ids, tids + tdonor(tids))
+                    else:
+                        big = mk(ids + [int(x) for x in g.integers(0, NU, int(g.integers(1, 6)))], tids)
+                over = prewritten[0] or big is not None
+                handle = g.random() < 0.25
+                vform = "written over an earlier matrix at the same location" if over else "fresh location"
+                desc = "to_hdf5 -> from_hdf5 (%s, group %r, %s)" % (vform, grp, "caller-owned handle" if handle else "file name")
+
+                def call(big=big, grp=grp, handle=handle):
+                    if big is not None:
+                        big.to_hdf5(h5path, grp)
+                    prewritten[0] = True
+                    if handle:
+                        import h5py
+                        with h5py.File(h5path, "a") as fh:
+                            b.to_hdf5(fh, grp)
+                            return cls.from_hdf5(fh, grp)
+                    b.to_hdf5(h5path, grp)
+                    return cls.from_hdf5(h5path, grp)
+            elif op == "pandas round trip":
+                desc = "to_pandas(unscale=True) -> from_pandas"
+                call = lambda: cls.from_pandas(b.to_pandas(unscale=True))      # noqa: E731
+            else:
+                desc = "to_csv(unscale=True) -> from_csv(float_precision=round_trip)"
+
+                def call():
+                    b.to_csv(csvpath, unscale=True)
+                    # pandas' default float parser is not exact (-0.0003102630688626493 reads back as -0.0003102630688626):
+                    # the text precision of CSV belongs to the persistence property (C16); here the exact parser is requested
+                    return cls.from_csv(csvpath, float_precision="round_trip")
+            if generic:
+                desc = desc.replace(op, "%s[axis=%d]" % (gname, ax), 1)
+            if gname in ("insert", "incorp", "adjoin", "append", "concat") and not trait_op:
+                vform += pcls(ids, exp)      # precision class of the combined sources (only where sources are combined)
+            hist.append(desc)
+            ctx.hook("op:" + op)
+            site = ("%s.to_hdf5/from_hdf5" % cls.__mro__[[k_.__name__ for k_ in cls.__mro__].index(site_of(cls, "to_hdf5").split(".")[0])].__name__
+                    if op == "hdf5 round trip" else
+                    site_of(cls, "from_pandas") if op == "pandas round trip" else
+                    site_of(cls, "from_csv") if op == "csv round trip" else site_of(cls, op))
+            R_before = RAW(ids, tids); mg_before = MG(tids)
+            fn0 = _FN[0]
             try:
-                un = numpy.asarray(b.unscale(), dtype=float)
-                mok, vok, _, first = O.compare_matrix(un, R_before, mags, k, reps(ids))
+                res = call()
+            except Exception as e:
+                # state clause (DESIGN 2.1): a refusing operation is not a violation, a half-applied one is
+                ctx.raised(op + ("[generic]" if generic else ""), e)
+                try:
+                    un = numpy.asarray(b.unscale(), dtype=float)
+                    mok, vok, _, first = O.compare_matrix(un, R_before, mg_before, k, reps(ids))
+                except Exception:
+                    mok = vok = False; first = None; un = None
+                if not (mok and vok):
+                    ctx.violation("C15.ops", site, "object intact after an operation that raised", vform,
+                                  witness={"history": hist, "raw": R_before, "unscaled": un, "first_bad": first}, coords=coords)
+                rejudge(site, k)
+                continue
+            obj = b if inplace else res
+            if inplace and res is not None:
+                ctx.sumnote("in-place operation returned a value")
+            # which taxa / traits does the result hold?  (found through the labels, C03 judges the labels themselves)
+            try:
+                nrow = int(obj.mat.shape[0]); ncol = int(obj.mat.shape[1])
+                lids = decode(obj.taxa) if obj.taxa is not None and len(obj.taxa) == nrow else None
+                ltids = tdecode(obj.trait) if obj.trait is not None and len(obj.trait) == ncol else None
             except Exception:
-                mok = vok = False; first = None; un = None
+                nrow, ncol, lids, ltids = -1, -1, None, None
+            if lids is None:
+                lids = list(exp)
+                ctx.sumnote("result without usable taxa labels (rows identified by position)")
+            elif lids != exp:
+                ctx.sumnote("label order differs from the harness model")
+            if ltids is None:
+                ltids = list(expt)
+                ctx.sumnote("result without usable trait labels (columns identified by position)")
+            elif ltids != expt:
+                ctx.sumnote("trait order differs from the harness model")
+            w0 = {"history": list(hist), "class": cls.__name__, "initial_taxa": ids0, "initial_traits": tnames(tids0), "initial_raw": RAW(ids0, tids0),
+                  "column_classes_by_trait": dict(zip(TNAMES, ccs))}
+            if nrow != len(exp) or sorted(lids) != sorted(exp) or ncol != len(expt) or sorted(ltids) != sorted(expt):
+                ctx.check("C15.ops", False, site, "result holds exactly the requested taxa and traits", vform,
+                          witness=dict(w0, expected_taxa=exp, labels=lids, nrows=nrow, expected_traits=tnames(expt), trait_labels=tnames(ltids),
+                                       ncols=ncol), coords=coords)
+                rejudge(site, k)
+                return
+            R = RAW(lids, ltids); mg = MG(ltids)
+            try:
+                un = numpy.asarray(obj.unscale(), dtype=float)
+            except Exception as e:
+                ctx.check("C15.ops", False, site, "unscale() of the result raised %s" % type(e).__name__, vform,
+                          witness=dict(w0, error=str(e)[:200]), coords=coords)
+                return
+            mok, vok, worst, first = O.compare_matrix(un, R, mg, k, reps(lids))
+            if mok and vok:
+                ctx.maxnote("ops round trip |err|/tol", worst)
+            w = None
             if not (mok and vok):
-                ctx.violation("C15.ops", site, "object intact after an operation that raised", vform,
-                              witness={"history": hist, "raw": R_before, "unscaled": un, "first_bad": first}, coords=coords)
+                i, j = first if first else (0, 0)
+                w = dict(w0, taxa=lids, traits=tnames(ltids),
+                         first_bad={"row": i, "trait": TNAMES[ltids[j]] if j < len(ltids) else j, "taxon": lids[i] if i < len(lids) else None,
+                                    "source_array_type": {"d": "float64", "f": "float32", "i": "int64"}[str(src[lids[i]])] if i < len(lids) else None},
+                         source_types="".join(src[lids].tolist()), result_dtype=str(getattr(obj.mat, "dtype", None)),
+                         raw_row=R[i] if R.size else None, unscaled_row=un[i] if un.ndim == 2 and un.shape[0] > i else None,
+                         location=obj.location, scale=obj.scale)
+            is32 = str(getattr(obj.mat, "dtype", "")) == "float32" and bool(numpy.any(src[lids] != "f"))
+            if is32 and demoted[0] is None:
+                demoted[0] = (site, vform)
+            elif not is32:
+                demoted[0] = None
+            ksite, kform = site, vform
+            if not (mok and vok) and is32 and first and src[lids[first[0]]] != "f" and mok:
+                # a float64/int64 taxon lost precision inside a single-precision matrix: the mechanism is the operation that
+                # put it there (the loss may only become visible at a later step, when the values stop being exactly representable)
+                ksite, kform = demoted[0]
+                w["demoted_to_float32_by"] = ksite
+            good = ctx.check("C15.ops", mok and vok, ksite, "every retained taxon keeps its raw values, missing stays missing", kform,
+                             what=None if (mok and vok) else "C15.ops: after %s the matrix no longer reproduces the raw values of its taxa (%s)"
+                             % (site, "NaN mask differs" if not mok else "values differ"), witness=w, coords=coords)
+            if not inplace:
+                # the source of a non-mutating operation is still what it was
+                try:
+                    un0 = numpy.asarray(b.unscale(), dtype=float)
+                    m0, v0, _, f0 = O.compare_matrix(un0, R_before, mg_before, k, reps(ids))
+                except Exception:
+                    m0 = v0 = False; f0 = None
+                ctx.check("C15.ops", m0 and v0, site, "source matrix unchanged by a non-mutating operation", vform,
+                          witness=dict(w0, first_bad=f0), coords=coords)
             rejudge(site, k)
-            continue
-        obj = b if inplace else res
-        if inplace and res is not None:
-            ctx.sumnote("in-place operation returned a value")
-        # which taxa does the result hold?  (found through the labels, C03 judges the labels themselves)
-        try:
-            nrow = int(obj.mat.shape[0])
-            lids = decode(obj.taxa) if obj.taxa is not None and len(obj.taxa) == nrow else None
-        except Exception:
-            nrow, lids = -1, None
-        if lids is None:
-            lids = list(exp)
-            ctx.sumnote("result without usable taxa labels (rows identified by position)")
-        elif lids != exp:
-            ctx.sumnote("label order differs from the harness model")
-        w0 = {"history": list(hist), "class": cls.__name__, "initial_taxa": ids0, "initial_raw": U[ids0], "column_classes": ccs}
-        if nrow != len(exp) or sorted(lids) != sorted(exp):
-            ctx.check("C15.ops", False, site, "result holds exactly the requested taxa", vform,
-                      witness=dict(w0, expected_taxa=exp, labels=lids, nrows=nrow), coords=coords)
-            return
-        R = U[lids]
-        try:
-            un = numpy.asarray(obj.unscale(), dtype=float)
-        except Exception as e:
-            ctx.check("C15.ops", False, site, "unscale() of the result raised %s" % type(e).__name__, vform,
-                      witness=dict(w0, error=str(e)[:200]), coords=coords)
-            return
-        mok, vok, worst, first = O.compare_matrix(un, R, mags, k, reps(lids))
-        if mok and vok:
-            ctx.maxnote("ops round trip |err|/tol", worst)
-        w = None
-        if not (mok and vok):
-            i, j = first if first else (0, 0)
-            w = dict(w0, taxa=lids, first_bad={"row": i, "trait": j, "taxon": lids[i] if i < len(lids) else None,
-                                               "source_array_type": {"d": "float64", "f": "float32", "i": "int64"}[str(src[lids[i]])] if i < len(lids) else None},
-                     source_types="".join(src[lids].tolist()), result_dtype=str(getattr(obj.mat, "dtype", None)),
-                     raw_row=R[i] if R.size else None, unscaled_row=un[i] if un.ndim == 2 and un.shape[0] > i else None,
-                     location=obj.location, scale=obj.scale)
-        is32 = str(getattr(obj.mat, "dtype", "")) == "float32" and bool(numpy.any(src[lids] != "f"))
-        if is32 and demoted[0] is None:
-            demoted[0] = (site, vform)
-        elif not is32:
-            demoted[0] = None
-        ksite, kform = site, vform
-        if not (mok and vok) and is32 and first and src[lids[first[0]]] != "f" and mok:
-            # a float64/int64 taxon lost precision inside a single-precision matrix: the mechanism is the operation that
-            # put it there (the loss may only become visible at a later step, when the values stop being exactly representable)
-            ksite, kform = demoted[0]
-            w["demoted_to_float32_by"] = ksite
-        good = ctx.check("C15.ops", mok and vok, ksite, "every retained taxon keeps its raw values, missing stays missing", kform,
-                         what=None if (mok and vok) else "C15.ops: after %s the matrix no longer reproduces the raw values of its taxa (%s)"
-                         % (site, "NaN mask differs" if not mok else "values differ"), witness=w, coords=coords)
-        if not inplace:
-            # the source of a non-mutating operation is still what it was
+            if not good:
+                return  # later states descend from a corrupted object: judging them would only multiply the same finding
+            if op in ("append_taxa", "incorp_taxa", "remove_taxa"):
+                tag = INPLACE
+            elif (not inplace and not trait_op and op != "hdf5 round trip"):
+                tag = ""       # new object standardised on its own taxa (taxa-axis operation, pandas / csv re-import)
+            sts, _ = col_stats(R)
+            if not inplace and not tag:
+                # a result built by the standardising constructor is that constructor's responsibility
+                check_stored(ctx, obj, R, sts, mg, k, site0 if _FN[0] > fn0 else site, coords, derived=True, prec=prec_of(lids))
+            check_stats(ctx, obj, R, sts, mg, k, coords, tag, prec_of(lids))
+            b, ids, tids = obj, lids, ltids
+    finally:
+        for pth in (h5path, csvpath):
             try:
-                un0 = numpy.asarray(b.unscale(), dtype=float)
-                m0, v0, _, f0 = O.compare_matrix(un0, R_before, mags, k, reps(ids))
-            except Exception:
-                m0 = v0 = False; f0 = None
-            ctx.check("C15.ops", m0 and v0, site, "source matrix unchanged by a non-mutating operation", vform,
-                      witness=dict(w0, first_bad=f0), coords=coords)
-        rejudge(site, k)
-        if not good:
-            return  # later states descend from a corrupted object: judging them would only multiply the same finding
-        if op in ("append_taxa", "incorp_taxa", "remove_taxa"):
-            tag = INPLACE
-        elif not inplace:
-            tag = ""
-        sts, _ = col_stats(R)
-        if not inplace:
-            # a result built by the standardising constructor is that constructor's responsibility
-            check_stored(ctx, obj, R, sts, mags, k, site0 if _FN[0] > fn0 else site, coords, derived=True, prec=prec_of(lids))
-        check_stats(ctx, obj, R, sts, mags, k, coords, tag, prec_of(lids))
-        b, ids = obj, lids
+                os.unlink(pth)
+            except OSError:
+                pass
 
 
 # ------------------------------------------------------------------ family: generic scaled matrix
@@ -838,7 +1042,7 @@ def case_generic(ctx, c):
               witness={"raw": Rf, "stored": flat(sm.mat), "location": sm.location, "scale": sm.scale, "first_bad": first}, coords=coords)
 
 
-FAMILIES = {"build": (case_build, 12000, 320000), "ops": (case_ops, 7200, 160000), "generic": (case_generic, 3600, 64000)}
+FAMILIES = {"build": (case_build, 12000, 320000), "ops": (case_ops, 6400, 160000), "generic": (case_generic, 3600, 64000)}
 
 
 def run_shard(ctx):
